@@ -273,6 +273,7 @@ func (w *World) Send(i int, m Msg) Obs {
 	var o Obs
 	c := w.Clients[i]
 	if c.V.Closed || w.Dead {
+		w.collect(&o)
 		return o
 	}
 	raw, err := json.Marshal(m)
@@ -287,6 +288,7 @@ func (w *World) SendRaw(i int, raw []byte) Obs {
 	var o Obs
 	c := w.Clients[i]
 	if c.V.Closed || w.Dead {
+		w.collect(&o)
 		return o
 	}
 	w.guard(&o, func() {
@@ -305,6 +307,7 @@ func (w *World) Drain(i int) Obs {
 	var o Obs
 	c := w.Clients[i]
 	if c.V.Closed || w.Dead {
+		w.collect(&o)
 		return o
 	}
 	w.guard(&o, func() {
@@ -322,6 +325,7 @@ func (w *World) Disconnect(i int) Obs {
 	var o Obs
 	c := w.Clients[i]
 	if c.V.Closed || w.Dead {
+		w.collect(&o)
 		return o
 	}
 	w.guard(&o, func() {
@@ -345,6 +349,7 @@ func (w *World) Tasks() []string {
 func (w *World) RunTask(k int) Obs {
 	var o Obs
 	if w.Dead {
+		w.collect(&o)
 		return o
 	}
 	t := vrt.TakeTask(k)
